@@ -10,20 +10,20 @@ TECH = {
  "C04": "exhaustive interpretation of depth-limited creation over all decision scripts on model grammars (set equality with the enumerated bounded language) + necessary-condition rules (exact filters, full frontier, single randomness funnel, recursion through wrappers)",
  "C05": "end-to-end interpretation of the grammar analysis (registration, fixpoint, reachable sub-grammar) on model grammars against a specification reference; type-form walker coverage; AND/OR polarity; base-type table agreement",
  "C06": "finite-model interpretation of crossover / mutation operators on symbolic genes (all cuts, masks, drawn positions); attribute-consistency and must-not-reach rules",
- "C07": "interprocedural random-source and store provenance over the resolved call graph (CHA, constructor chains) + interpreted model of the permitted genotype extension",
- "C08": "set-iteration-order consumer classification (mypy types) + fixpoint-completeness rule + ambient-nondeterminism who-may-call + process-state rule",
+ "C07": "interprocedural random-source and store provenance over the resolved call graph (CHA, constructor chains) + interpreted model of the permitted genotype extension + memo-key completeness (dependency analysis) + process / class-level state rule",
+ "C08": "set-iteration-order consumer classification (mypy types) + fixpoint-completeness rule + ambient-nondeterminism who-may-call + process-state rule (module-level, class-level containers, stateless initializers by may-mutate analysis)",
  "C09": "interprocedural parameter-mutation effect analysis with a freshness-depth lattice + interpreted relabel model",
- "C10": "mutation-through-Grammar-alias effect analysis + who-may-construct / who-may-write",
- "C11": "call-graph must-pass-through (labelling) + contradiction rules + interpreted fold (symbolic children and whole model programs) + interpreted abstract-expansion table on model grammars",
+ "C10": "mutation-through-Grammar-alias effect analysis (grammar and refinement objects) + who-may-construct / who-may-write (any dict idiom)",
+ "C11": "call-graph must-pass-through (labelling) + contradiction rules + interpreted fold (symbolic children and whole model programs) + interpreted abstract-expansion table on model grammars + interpreted reuse of labelled donor material",
  "C12": "finite-model interpretation of the tracker state machine on symbolic batches + polarity evaluation + who-may-call on Evaluator",
  "C13": "finite-model interpretation of every evaluator / problem class on symbolic batches (pairing of evaluate / count / store) + who-may-call",
- "C14": "loop-shape rules + finite-model interpretation of search() with a scripted budget, of budget predicates against a scripted tracker and of the tracked population wrapper",
+ "C14": "loop-shape rules + finite-model interpretation of search() with a scripted budget, of budget predicates against a scripted tracker (decoy fitness of another problem), of budget-assembling front ends and of the tracked population wrapper",
  "C15": "iterator typestate (powerset abstract interpretation) + symbolic yield counts (affine domain, Fourier-Motzkin) + list-shape abstract interpretation of slice boundaries",
- "C16": "finite-model interpretation of elitism and of the hosting combinators + yield count / typestate",
+ "C16": "finite-model interpretation of elitism and of the hosting combinators (incl. floating-point point witnesses for reserved slots) + argument-order rule for builders + yield count / typestate",
  "C17": "finite-model interpretation of tournament / lexicase selection with scripted draws against a reference filter",
- "C18": "abstract interpretation (affine relational domain, Fourier-Motzkin, exactness bit) of every bounded draw + exhaustive small models of the derived primitives + concrete point witnesses",
- "C19": "finite-model interpretation (exact rationals) of the weight normalisation and of its trigger + who-may-write weights + weighted-choice models",
- "C20": "closure-capture scope analysis + finite-model interpretation of the recorder and of tracker registration + single-writer who-may-write",
+ "C18": "abstract interpretation (affine relational domain, Fourier-Motzkin, exactness bit) of every bounded draw + exhaustive small models of the derived primitives + concrete point witnesses + memo-key completeness",
+ "C19": "finite-model interpretation (exact rationals) of the weight normalisation and of its trigger + who-may-write weights + weighted-choice models + interpreted weight-aware choosers (zero / vanishing effective weights, alignment on permuted offers) + rule disjointness on a multiple-inheritance model grammar",
+ "C20": "closure-capture scope analysis + finite-model interpretation of the recorder and of tracker registration + single-writer who-may-write + no address-keyed tables in recorder code",
 }
 NOT_BUILT = "no sound check built yet in this round; the structural clauses planned are in DESIGN.md section 3"
 checks, na = [], []
